@@ -18,7 +18,7 @@
 (* An insertion is the classical three-step linearizable operation         *)
 (*      Call(t,k) ; Lin(t) ; Ret(t,ok)                                     *)
 (* where Lin(t) is the atomic abstract Insert: it reports TRUE iff the key *)
-(* is new and adds it.  Consequences (checked by TLC in MC_SortedSetAbs):  *)
+(* is new and adds it.  Consequences (checked by TLC in SortedSetAbsMC ):  *)
 (*   - the final set is exactly the union of all inserted keys,            *)
 (*   - for every distinct key exactly one insert call reports TRUE,        *)
 (*     also when several inserts of the same key overlap: the one that is  *)
@@ -62,16 +62,20 @@ UpperBound(S, q) == Opt({x \in S : x > q})
 Size(S)          == Cardinality(S)
 \* iteration visits every key exactly once in strictly ascending order; stated without constructing the sequence
 Range(s) == {s[i] : i \in DOMAIN s}
+Ascending(s) == \A i \in 1..(Len(s) - 1) : s[i] < s[i + 1]
 IsIterationOf(s, S) == /\ Len(s) = Cardinality(S)
                        /\ Range(s) = S
-                       /\ \A i \in 1..(Len(s) - 1) : s[i] < s[i + 1]
-\* a chunk partition: the chunks, in order, cover every key exactly once in ascending order
-RECURSIVE Flatten(_)
-Flatten(cs) == IF cs = <<>> THEN <<>> ELSE Head(cs) \o Flatten(Tail(cs))
-IsChunkingOf(cs, S) == IsIterationOf(Flatten(cs), S)
+                       /\ Ascending(s)
+\* a chunk partition: the chunks, taken in order, cover every key exactly once in ascending order, i.e. their
+\* concatenation is the iteration sequence.  Stated without recursion (TLC's stack): every non-empty chunk ascends
+\* strictly, each one ends below the start of the next one, and together they hold exactly the keys of S.
+IsChunkingOf(cs, S) == LET ne == SelectSeq(cs, LAMBDA c : c # <<>>)
+                       IN /\ \A i \in DOMAIN ne : /\ Ascending(ne[i])
+                                                  /\ i < Len(ne) => ne[i][Len(ne[i])] < ne[i + 1][1]
+                          /\ UNION {Range(ne[i]) : i \in DOMAIN ne} = S
 
 (* --------- the theorem-level statements of C25 (checked on small models) *)
-\* history variables are added by MC_SortedSetAbs
+\* history variables are added by SortedSetAbsMC
 ANext == \/ \E t \in Threads, k \in Int : Call(t, k)
          \/ \E t \in Threads : Lin(t)
          \/ \E t \in Threads, k \in Int, ok \in BOOLEAN : Ret(t, k, ok)
